@@ -282,7 +282,7 @@ func (g *g16) fill(t *ty16, v reflect.Value, depth int) {
 			v.SetBytes(b)
 		}
 	case "time":
-		ms := int64(r.Intn(2_000_000_000)) * 1000
+		ms := r.Int63n(2_000_000_000_000) // any millisecond
 		sub := int64(0)
 		if r.Intn(3) == 0 {
 			sub = int64(r.Intn(1_000_000))
@@ -610,6 +610,24 @@ func hasNullPointee(v reflect.Value) bool {
 	})
 }
 
+// jsonExact: every number in the value survives a float64 (what JSON parsing yields), and no byte
+// string is involved (JSON carries it as text)
+func jsonExact(v reflect.Value) bool {
+	return !walk16(v, func(x reflect.Value) bool {
+		switch x.Kind() {
+		case reflect.Int, reflect.Int64:
+			return x.Int() > 1<<52 || x.Int() < -(1<<52)
+		case reflect.Uint, reflect.Uint64:
+			return x.Uint() > 1<<52
+		case reflect.Slice:
+			return x.Type().Elem().Kind() == reflect.Uint8
+		case reflect.Float32, reflect.Float64:
+			return math.IsInf(x.Float(), 0) || math.IsNaN(x.Float())
+		}
+		return false
+	})
+}
+
 // hasTinyDuration: a non-zero time.Duration below one millisecond (it encodes as 0 milliseconds)
 func hasTinyDuration(v reflect.Value) bool {
 	return walk16(v, func(x reflect.Value) bool {
@@ -692,7 +710,9 @@ func case16(g *g16) Case {
 				fail = fmt.Sprintf("decoded value differs: %#v instead of %#v", back.Interface(), v.Interface())
 			}
 		}
-		// through the JSON form
+		// through the JSON form: the engine value printed as JSON, parsed back generically, encoded and
+		// decoded into the same type must give a value that encodes like the original (types without
+		// open fields; numbers that JSON carries exactly)
 		if fail == "" {
 			if data, err := json.Marshal(enc); err == nil {
 				var anyv any
@@ -703,9 +723,21 @@ func case16(g *g16) Case {
 								fail = fmt.Sprintf("panic through JSON: %v", p)
 							}
 						}()
-						if e3, err := types.Marshal(anyv); err == nil {
-							out := reflect.New(t.rt)
-							_ = types.Unmarshal(e3, out.Interface())
+						e3, err := types.Marshal(anyv)
+						if err != nil {
+							return
+						}
+						out := reflect.New(t.rt)
+						if err := types.Unmarshal(e3, out.Interface()); err != nil {
+							if !t.hasAny && jsonExact(v) {
+								fail = "decoding the JSON form failed: " + err.Error()
+							}
+							return
+						}
+						if !t.hasAny && jsonExact(v) {
+							if e4, err := types.Marshal(out.Elem().Interface()); err != nil || cvalOf(e4) != encG {
+								fail = "through the JSON form the value encodes differently: " + cvalOf(e4) + " instead of " + encG
+							}
 						}
 					}()
 				}
@@ -779,6 +811,31 @@ func specCase16(g *g16) (fail string) {
 	e2, _ := types.Marshal(back)
 	if !types.Equal(e1, e2) {
 		return fmt.Sprintf("typed -> generic -> typed changed the spec: %v instead of %v", e2, e1)
+	}
+	// decoding into Spec-typed targets: each decode yields its own object
+	docA := &spec.Unstructured{Meta: spec.Meta{ID: uid(1), Kind: "k", Namespace: "n", Name: "first", Annotations: map[string]string{"p": "q"}}, Fields: map[string]any{"x": 1}}
+	docB := &spec.Unstructured{Meta: spec.Meta{ID: uid(2), Kind: "k", Namespace: "n"}, Fields: map[string]any{"y": 2}}
+	vA, _ := types.Marshal(docA)
+	vB, _ := types.Marshal(docB)
+	var sA, sB spec.Spec
+	if err := types.Unmarshal(vA, &sA); err != nil {
+		return "decoding into a Spec failed: " + err.Error()
+	}
+	if err := types.Unmarshal(vB, &sB); err != nil {
+		return "decoding into a Spec failed: " + err.Error()
+	}
+	if rA, _ := types.Marshal(sA); !types.Equal(rA, vA) {
+		return fmt.Sprintf("a spec decoded earlier changed when another was decoded: %v instead of %v", rA, vA)
+	}
+	if rB, _ := types.Marshal(sB); !types.Equal(rB, vB) {
+		return fmt.Sprintf("a spec decoded through the Spec interface differs: %v instead of %v", rB, vB)
+	}
+	var list []spec.Spec
+	if err := types.Unmarshal(types.NewSlice(vA, vB), &list); err != nil || len(list) != 2 {
+		return fmt.Sprintf("decoding a list of specs failed: %v", err)
+	}
+	if r0, _ := types.Marshal(list[0]); !types.Equal(r0, vA) {
+		return fmt.Sprintf("the first of a decoded list of specs is %v instead of %v", r0, vA)
 	}
 	// pointers to a type that marshals itself as text (outside the model's universe)
 	tm := time.Unix(int64(r.Intn(1_000_000)), 0).UTC()
